@@ -3,6 +3,7 @@ package vuego
 import (
 	"bytes"
 	"errors"
+	"fmt"
 	"io/fs"
 	"strings"
 	"sync"
@@ -149,7 +150,15 @@ func (lp *LessProcessor) isLessStyleTag(node *html.Node) bool {
 }
 
 // compileLessTag extracts LESS content from the style tag, compiles it to CSS, and replaces the tag with a style tag.
-func (lp *LessProcessor) compileLessTag(styleNode *html.Node) error {
+func (lp *LessProcessor) compileLessTag(styleNode *html.Node) (err error) {
+	// The LESS parser and renderer panic on some malformed input (for example an @import of a
+	// file that could only be read in part). A panic must not escape from a render call.
+	defer func() {
+		if r := recover(); r != nil {
+			err = &LessProcessorError{Err: fmt.Errorf("%v", r), Reason: "LESS compiler panicked"}
+		}
+	}()
+
 	// Extract the LESS content from the style tag's text content
 	lessContent := ""
 	for c := styleNode.FirstChild; c != nil; c = c.NextSibling {
